@@ -3,6 +3,7 @@ import ast
 import re
 
 from ..core import AnalysisError
+from .shared_py import inn
 from ..pyfront import unparse, path_conditions, norm_key
 from .. import templ
 from . import shared_py as P
@@ -116,8 +117,8 @@ def ownership(ctx, L):
         L.check(piece in src, 'C11a.ownership', 'set_field|' + piece, sf.site(), why + ' (expected `%s`)' % piece, '')
     u = comp.func('union._copy_implementation')
     us = ws(unparse(u.node))
-    L.check('if codec_kind.is_composite(self._discriminated.type): lhs = getattr(self, self._discriminated.name) lhs.copy_from(rhs) '
-            'else: setattr(self, self._discriminated.name, rhs)' in us, 'C11a.ownership', 'union._copy_implementation|ladder', u.site(),
+    L.check(inn('if codec_kind.is_composite(self._discriminated.type): lhs = getattr(self, self._discriminated.name) lhs.copy_from(rhs) '
+            'else: setattr(self, self._discriminated.name, rhs)', us), 'C11a.ownership', 'union._copy_implementation|ladder', u.site(),
             'a composite arm is copied recursively, a scalar arm is assigned through the checked setter', us)
     ck = comp.func('codec_kind.is_composite')
     L.check(P.has(ck, 'return issubclass(type_, (struct, union))'), 'C11a.ownership', 'codec_kind.is_composite', ck.site(),
@@ -213,7 +214,7 @@ def ladder(ctx, L):
 def extend_copies(ctx, L):
     f = ctx.py.mod('prophy.container').func('bound_composite_array.extend')
     src = ws(unparse(f.node))
-    L.check('new_element = composite_cls() new_element.copy_from(message)' in src and 'composite_cls = self._TYPE' in src,
+    L.check(inn('new_element = composite_cls() new_element.copy_from(message)', src) and inn('composite_cls = self._TYPE', src),
             'C11a.ownership', 'bound_composite_array.extend|fresh-copy', f.site(),
             'extend() must copy every given element into a fresh instance (never store the caller\'s object)', src)
     L.check(re.search(r'self\._values\.(append|extend)\((message|elem_seq)\)', src) is None, 'C11a.ownership',
